@@ -976,6 +976,11 @@ class OdeSystem(object):
             return
         steps = 0
 
+        if not self.__dense_output:
+            # without dense output the interpolants only serve the event search of the step in progress: those left over from an earlier
+            # call (possibly made in the other direction of time) must not answer queries of this one
+            self.__sol = DenseOutput(None, None)
+
         events, is_terminal, direction, last_occurrence, requires_dstate = prepare_events(events, self.__y[0])
         if events is not None:
             # a crossing recorded by an earlier call at the point where this call starts is the same crossing, not a new one
